@@ -68,7 +68,10 @@ SPEC("pane.convert", "make_converter",
                                                and isinstance(ty, tuple),
                                                result == TupleConverter(typeof(ty), ty, handlers=handlers)), ["C01", "C18"], "tuple-literal"),
          # special forms come before any handler: Annotated, Union (members get the handlers), Literal
-         (lambda ty, handlers, result: implies(not mc_is_special_value(ty) and mc_base(ty) is UNION,
+         (lambda ty, handlers, result: implies(not mc_is_special_value(ty) and mc_base(ty) is ANNOTATED,
+                                               result == ret("pane.convert:_annotated_converter", sat(get_args(ty), 0), get_args(ty)[1:], handlers)),
+          ["C01", "C13", "C12"], "annotated"),
+         (lambda ty, handlers, result: implies(not mc_is_special_value(ty) and mc_base(ty) is UNION and mc_base(ty) is not ANNOTATED,
                                                result == UnionConverter(get_args(ty), handlers=handlers)), ["C01", "C11", "C18"], "union"),
          (lambda ty, handlers, result: implies(not mc_is_special_value(ty) and mc_base(ty) is LITERAL and mc_base(ty) is not UNION
                                                and mc_base(ty) is not ANNOTATED,
